@@ -486,7 +486,8 @@ func genLargeDoc(t *rapid.T) interface{} {
 }
 
 var largeDocExprs = []string{"a[*].a", "a[].a", "a[?a > `5`].b", "sort_by(a[?type(@)=='object'], &a)[*].b", "a[::2][1:]", "b.a[*][0]", "length(a)", "a[?type(@)=='number'] | sum(@)",
-	"map(&type(@), a)", "max_by(a[?a], &a)", "reverse(a)[0]", "a[*][*]", "a[].b | sort(@) | join(',', @)", "to_string(a) | length(@)", "a[?contains(`[1,2,3]`, @)]", "[a, a][]", "a[? b == '5'].a | [0]"}
+	"map(&type(@), a)", "max_by(a[?a], &a)", "reverse(a)[0]", "a[*][*]", "a[].b | sort(@) | join(',', @)", "to_string(a) | length(@)", "a[?contains(`[1,2,3]`, @)]", "[a, a][]", "a[? b == '5'].a | [0]",
+	"sort_by(a, &a)", "max_by(a, &b)", "sort_by(a[?type(@)!='array'], &a)", "sort_by(a, &type(@))[0]", "min_by(a, &to_string(@))", "sort_by(a[?type(@)=='object'], &b)[*].a", "sort(a)", "sort_by(a, &abs(@))", "max_by(a[?a], &length(b))", "map(&abs(a), a)"}
 
 func TestC05(t *testing.T) {
 	rapid.Check(t, func(t *rapid.T) {
